@@ -25,6 +25,10 @@ type ReqSpec struct {
 	NoHost    bool        `json:"no_host,omitempty"`
 	BlockCuts []int       `json:"block_cuts,omitempty"` // HTTP/2: header block cut into CONTINUATION frames
 	Scheme    string      `json:"scheme,omitempty"`     // HTTP/2 :scheme pseudo-header (default https)
+	// raw HTTP/2 framing options
+	PadLens          []int `json:"pad_lens,omitempty"`             // padding per DATA frame (cyclic; 0 = PADDED flag with pad length 0; -1 = not padded)
+	UnannouncedTrail bool  `json:"unannounced_trailers,omitempty"` // send the trailer block without a "trailer" request header
+	DeclareLength    bool  `json:"declare_length,omitempty"`       // send content-length
 }
 
 type Exchange struct {
@@ -100,7 +104,10 @@ func (r ReqSpec) H2Fields() [][2]string {
 	for _, h := range r.Headers {
 		f = append(f, [2]string{strings.ToLower(h[0]), h[1]})
 	}
-	if len(r.Trailers) > 0 {
+	if r.DeclareLength {
+		f = append(f, [2]string{"content-length", fmt.Sprint(len(r.Body))})
+	}
+	if len(r.Trailers) > 0 && !r.UnannouncedTrail {
 		var names []string
 		for _, t := range r.Trailers {
 			names = append(names, strings.ToLower(t[0]))
@@ -119,6 +126,7 @@ func (p *H2Peer) SendH2(streamID uint32, r ReqSpec, prio *Prio) error {
 	}
 	rest := r.Body
 	i := 0
+	frame := 0
 	for len(rest) > 0 {
 		n := len(rest)
 		if len(r.Pieces) > 0 {
@@ -131,11 +139,22 @@ func (p *H2Peer) SendH2(streamID uint32, r ReqSpec, prio *Prio) error {
 				n = len(rest)
 			}
 		}
-		if n > 16384 {
-			n = 16384
+		if n > 16000 {
+			n = 16000
 		}
 		last := n == len(rest) && len(r.Trailers) == 0
-		if err := p.Fr.WriteData(streamID, last, rest[:n]); err != nil {
+		pad := -1
+		if len(r.PadLens) > 0 {
+			pad = r.PadLens[frame%len(r.PadLens)]
+		}
+		frame++
+		var err error
+		if pad >= 0 {
+			err = p.Fr.WriteDataPadded(streamID, last, rest[:n], make([]byte, pad))
+		} else {
+			err = p.Fr.WriteData(streamID, last, rest[:n])
+		}
+		if err != nil {
 			return err
 		}
 		rest = rest[n:]
@@ -207,7 +226,9 @@ func (c *ClientConn) Do(r ReqSpec) Exchange {
 	if err := c.H2.SendH2(sid, r, nil); err != nil {
 		return Exchange{Err: "h2 write: " + err.Error()}
 	}
-	Wait()
+	// block until the response is complete or the connection ends (quiescence alone is not enough:
+	// the backend answers after a fake-time delay, and fake time only moves while everybody waits)
+	c.H2.AwaitResponse(sid, nil)
 	resp := c.H2.Response(sid)
 	ex := Exchange{Header: fieldsToHeader(resp.Header), Body: resp.Body, Trailer: fieldsToHeader(resp.Trailer)}
 	fmt.Sscanf(resp.Status, "%d", &ex.Status)
